@@ -180,12 +180,12 @@ Proof. exact (parallel_status_eq_single pm k cfg n f fs wp o1 o2). Qed.
 Print Assumptions C15_parallel_status_eq_single.
 
 (* all three observables, under: pairwise different suppressions, inline suppressions known
-   to the list, within one file the rendered text identifies the finding (texts_ok), macro
-   suppressions are file-local *)
+   to the list, every finding has a rendered text (texts_nonempty; the stronger texts_ok was
+   needed before fix 243c78e), macro suppressions are file-local *)
 Theorem C15_parallel_eq_single_thread pm cfg n f fs wp o1 o2 :
   whole_run pm None cfg n f fs wp = Some o1 -> whole_run pm (Some EThread) cfg n f fs wp = Some o2 ->
   uniq n = true -> Forall (inline_present n) fs ->
-  Forall (fun x => texts_ok (f_msgs x)) fs -> Forall macro_local n ->
+  Forall (fun x => texts_nonempty (f_msgs x)) fs -> Forall macro_local n ->
   (forall t, In t (map snd (o_reported o1)) <-> In t (map snd (o_reported o2)))
   /\ o_unmatched o2 = o_unmatched o1 /\ o_status o2 = o_status o1 /\ o_nomsg o2 = o_nomsg o1.
 Proof. exact (thread_eq_single pm cfg n f fs wp o1 o2). Qed.
@@ -194,7 +194,7 @@ Print Assumptions C15_parallel_eq_single_thread.
 Theorem C15_parallel_eq_single_process pm cfg n f fs wp o1 o2 :
   whole_run pm None cfg n f fs wp = Some o1 -> whole_run pm (Some EProcess) cfg n f fs wp = Some o2 ->
   uniq n = true -> Forall (inline_present n) fs ->
-  Forall (fun x => texts_ok (f_msgs x)) fs -> Forall macro_local n ->
+  Forall (fun x => texts_nonempty (f_msgs x)) fs -> Forall macro_local n ->
   (forall t, In t (map snd (o_reported o1)) <-> In t (map snd (o_reported o2)))
   /\ o_unmatched o2 = o_unmatched o1 /\ o_status o2 = o_status o1 /\ o_nomsg o2 = o_nomsg o1.
 Proof. exact (process_eq_single pm cfg n f fs wp o1 o2). Qed.
@@ -212,17 +212,28 @@ Theorem C15_any_schedule_reported_eq_single pm n fs r s out :
 Proof. exact (any_schedule_reported_eq_single pm n fs r s out). Qed.
 Print Assumptions C15_any_schedule_reported_eq_single.
 
-(* texts_ok is necessary for the unmatched-suppression reports (replays on the binary) *)
-Theorem C15_texts_ok_necessary_refuted :
+(* the former counterexample (two findings of one file with the same rendered text, a global
+   suppression of the second; fixed in /repo by 243c78e): the three executors agree *)
+Theorem C15_former_texts_witness_agrees :
   exists o1 o2 o3,
     whole_run pm_eq None wq_cfg [wq_supp] [] [wq_file] [] = Some o1
     /\ whole_run pm_eq (Some EThread) wq_cfg [wq_supp] [] [wq_file] [] = Some o2
     /\ whole_run pm_eq (Some EProcess) wq_cfg [wq_supp] [] [wq_file] [] = Some o3
-    /\ o_unmatched o1 = [] /\ length (o_unmatched o2) = 1%nat /\ length (o_unmatched o3) = 1%nat
-    /\ map snd (o_reported o1) = map snd (o_reported o2)
-    /\ uniq [wq_supp] = true /\ Forall macro_local [wq_supp].
-Proof. exact texts_ok_necessary_refuted. Qed.
-Print Assumptions C15_texts_ok_necessary_refuted.
+    /\ o_unmatched o1 = [] /\ o_unmatched o2 = [] /\ o_unmatched o3 = []
+    /\ map snd (o_reported o1) = map snd (o_reported o2) /\ map snd (o_reported o1) = map snd (o_reported o3)
+    /\ o_status o1 = o_status o2 /\ o_status o1 = o_status o3.
+Proof. exact former_texts_witness_agrees. Qed.
+Print Assumptions C15_former_texts_witness_agrees.
+
+(* the remaining hypothesis on texts (every finding has a rendered text) is necessary in the model;
+   not producible on the binary: the output templates are never empty *)
+Theorem C15_texts_nonempty_necessary_refuted :
+  exists o1 o2,
+    whole_run pm_eq None wq_cfg [wq_supp] [] [we_file] [] = Some o1
+    /\ whole_run pm_eq (Some EProcess) wq_cfg [wq_supp] [] [we_file] [] = Some o2
+    /\ o_unmatched o1 = [] /\ length (o_unmatched o2) = 1%nat.
+Proof. exact texts_nonempty_necessary_refuted. Qed.
+Print Assumptions C15_texts_nonempty_necessary_refuted.
 
 (* macro_local is necessary for the reported findings (model only: the front ends cannot
    produce a macro suppression without a file) *)
@@ -239,7 +250,7 @@ Example C15_eq_single_premises_inhabited :
                     /\ whole_run pm_eq (Some EThread) wq_cfg [wq_supp] [] [wi_file] [] = Some o2
                     /\ whole_run pm_eq (Some EProcess) wq_cfg [wq_supp] [] [wi_file] [] = Some o3)
   /\ uniq [wq_supp] = true /\ Forall (inline_present [wq_supp]) [wi_file]
-  /\ Forall (fun x => texts_ok (f_msgs x)) [wi_file] /\ Forall macro_local [wq_supp].
+  /\ Forall (fun x => texts_nonempty (f_msgs x)) [wi_file] /\ Forall macro_local [wq_supp].
 Proof. exact eq_single_premises_inhabited. Qed.
 End EQ.
 
